@@ -22,4 +22,4 @@ for _fn in sorted(os.listdir(_here)):
 NOT_CLAIMED = {}
 
 # fix: commits made in /repo (genuine defects repaired); none of them is a hook
-FIX_COMMITS = ['218cffc', '2a51dc3', 'ae1111e', '3997a0f', 'd660dab', '96e00ac', '6604eb0', '9826fcb', 'cfed176', 'f914bf1', 'e0d1353', '5a30154', 'bc0f717', 'a90df5d', '6b5b124', '8e9f95d', '6b35a3e', 'd8c74a2', '5da9efa', 'cf894eb', '70277f6', '97f2c27', '6931335', 'eef84fd', '885750c', '043066e', '7f47b5f', '919a3ea', '2d62050', 'a876aa4', 'faf67d0', 'f9d6080', '6ccffd4', '8788294', '292eb44', '00d5484', 'f5a8180', 'a5a821f', '66ecebf', 'a6412d5', 'a42b384', '0295108', '2865b43', '8a555f7', '6be3bcb', 'ea86b8c', 'e8cf4d3', '07a822a']
+FIX_COMMITS = ['218cffc', '2a51dc3', 'ae1111e', '3997a0f', 'd660dab', '96e00ac', '6604eb0', '9826fcb', 'cfed176', 'f914bf1', 'e0d1353', '5a30154', 'bc0f717', 'a90df5d', '6b5b124', '8e9f95d', '6b35a3e', 'd8c74a2', '5da9efa', 'cf894eb', '70277f6', '97f2c27', '6931335', 'eef84fd', '885750c', '043066e', '7f47b5f', '919a3ea', '2d62050', 'a876aa4', 'faf67d0', 'f9d6080', '6ccffd4', '8788294', '292eb44', '00d5484', 'f5a8180', 'a5a821f', '66ecebf', 'a6412d5', 'a42b384', '0295108', '2865b43', '8a555f7', '6be3bcb', 'ea86b8c', 'e8cf4d3', '07a822a', 'b940bd9']
